@@ -823,6 +823,21 @@ func (c *SpecCtx) call(e *SExpr) *Val {
 		v := c.ghostMapRead(gm, inner)
 		c.gmOld = false
 		return v
+	case "ispointer":
+		// ispointer(x): the dynamic type of the interface value x is a pointer type (decided over the types this
+		// run has boxed so far - the boxing of x itself has happened by the time the clause is evaluated)
+		x := c.eval(e.Args[0])
+		tag := X.E.IfaceTag(x.T)
+		var alts []*Term
+		for _, T := range X.E.typeList {
+			if _, isPtr := T.Underlying().(*types.Pointer); isPtr {
+				alts = append(alts, ts.Eq(tag, ts.IntLit(int64(X.E.typeIDs[typeKey(T)]))))
+			}
+		}
+		if len(alts) == 0 {
+			return &Val{T: ts.False(), GT: boolT}
+		}
+		return &Val{T: ts.Or(alts...), GT: boolT}
 	case "ismethod":
 		// ismethod(f, recv, Name): the function value f is the method value recv.Name (decided on the symbolic value: a
 		// closure created on this path from that bound method with that receiver)
